@@ -196,6 +196,7 @@ func driveConvert(s *shardSet, rng *rand.Rand, thorough bool) ([]string, map[str
 		}
 	}
 	driveBigConvert(s, rng, thorough)
+	driveConvertBig(s, rng, thorough)
 	// the same kind of work from several goroutines at once, on buffers that share nothing: a conversion may not
 	// depend on what other goroutines convert (scratch buffers, tables, pools shared between calls)
 	var wg sync.WaitGroup
@@ -400,4 +401,63 @@ func init() {
 	profileFns["convert"] = driveConvert
 	profileFns["panics"] = drivePanics
 	profileFns["zero"] = driveZero
+}
+
+// driveExtremes: every way of storing a sample (bulk and striped writes from a slice of the SAME element type,
+// sample appends, indexed stores, stores through a channel view, buffer appends) with the values at the ends of
+// the element type's range and values that do not survive a detour through a narrower or floating-point
+// representation; everything is read back through all views (same-type reads, channel reads, the projection).
+func driveExtremes(s *shardSet, rng *rand.Rand, thorough bool) {
+	for _, ty := range typesFor(thorough) {
+		ext := extremesFor(ty)
+		kt := KindOf(ty)
+		for ch := 1; ch <= 3; ch++ {
+			w := s.Next()
+			w.Reset()
+			frames := (len(ext)+ch-1)/ch + 2
+			w.Alloc(ty, ch, frames-1, frames)
+			root := 0
+			w.Slice(root, 0, frames) // whole-capacity alias
+			n := w.Views[root].Len()
+			vals := make([]int64, n)
+			for i := range vals {
+				vals[i] = ext[(i+ch)%len(ext)]
+			}
+			w.Write(root, kt, vals)
+			w.Read(root, kt, n+1)
+			// striped, rows of unequal length
+			rows := make([][]int64, ch)
+			nils := make([]bool, ch)
+			lens := make([]int, ch)
+			for c := range rows {
+				rows[c] = make([]int64, frames-1-c%2)
+				for i := range rows[c] {
+					rows[c][i] = ext[(i*ch+c+1)%len(ext)]
+				}
+				lens[c] = frames
+			}
+			w.WriteStriped(root, kt, rows, nils)
+			w.ReadStriped(root, kt, lens, nils)
+			// single stores
+			for i := 0; i < n; i++ {
+				w.SetSample(root, i, ext[(i+2)%len(ext)])
+			}
+			for i := 0; i < ch+1; i++ { // fills the last frame, then one no-op
+				w.AppendSample(root, ext[i%len(ext)])
+			}
+			for c := 0; c < ch; c++ {
+				for i := 0; i < frames; i++ {
+					w.ChanSet(root, c, i, ext[(c+i)%len(ext)])
+				}
+				w.ChanSample(root, c, rng.Intn(frames))
+			}
+			w.Read(1, kt, ch*frames)
+			// a buffer append copies them unchanged (in place and into new storage)
+			w.Alloc(ty, ch, 0, frames+1)
+			d := len(w.Views) - 1
+			w.Append(d, root)
+			w.Append(d, root)
+			w.Read(d, kt, w.Views[d].Len())
+		}
+	}
 }
